@@ -2,6 +2,8 @@
 import re
 from vlib import hexs, unhex
 
+PROFILES = ["release", "debug"]
+
 RULE = ("documents: generated Clausewitz text (nested objects/arrays, duplicate keys from a small pool, all 8 operators, "
         "headers, parameter blocks, mixed containers in both directions, empty {} ghosts, quoted/escaped/non-ASCII scalars, "
         "missing closing bracket, varied layout), one-byte mutations of them, and random strings over the significant "
@@ -21,8 +23,8 @@ SCALARS = [b"1", b"2", b"10", b"-5", b"yes", b"no", b"1.5", b"-0.0", b"0.25", b"
            b"18446744073709547616", b"-90071992547409097", b"9007199254740991", b"9007199254740992", b"9223372036854775808",
            b"18446744073709551615", b"18446744073709551616", b"+", b"-", b"-+5", b"+7", b".5", b"-.5", b"1.", b"0.1234567890123456789",
            b"1.00125", b"20405029553322.015", b"0.00000000000000000000001", b"0.0000000000000000000001", b"-9223372036854775808",
-           b"h\xe9llo", b"\xc3\xa9t\xc3\xa9", b"\xff\xfe", b"\xe2\x82", b"@var", b"@[1+2]", b"$add$", b"a.b.c", b"007", b"1e5", b"-1.50000"]
-QUOTED = [b'""', b'"x"', b'"hello world"', b'"yes"', b'"01"', b'"a\\"b"', b'"tr\xe9s "', b'"back\\\\slash"', b'"1.5"', b'"line\nbreak"',
+           b"Yes", b"YES", b"No", b"NO", b"y", b"n", b"true", b"false", b"yes1", b"h\xe9llo", b"\xc3\xa9t\xc3\xa9", b"\xff\xfe", b"\xe2\x82", b"@var", b"@[1+2]", b"$add$", b"a.b.c", b"007", b"1e5", b"-1.50000"]
+QUOTED = [b'""', b'"x"', b'"no"', b'"No"', b'"-5"', b'"18446744073709551615"', b'"hello world"', b'"yes"', b'"01"', b'"a\\"b"', b'"tr\xe9s "', b'"back\\\\slash"', b'"1.5"', b'"line\nbreak"',
           b'"tab\t"', b'"\xc3\xa9"', b'"\xed\xa0\x80"', b'"ctl\x01\x1f"', b'"{}=#"', b'"remainder"', b'"type"']
 HEADERS = [b"rgb", b"hsv", b"hsv360", b"LIST", b"list"]
 ALPHABET = b'{}=<>!?"\\#[]@ \n\t;a1b2.-+yesno'
@@ -372,7 +374,7 @@ def dom_cases(parsed):
 
 
 def run(ctx):
-    docs = gen_docs(ctx, ctx.scale(900, 9000), ctx.scale(1200, 12000), ctx.scale(1500, 15000))
+    docs = gen_docs(ctx, ctx.scale(2200, 12000), ctx.scale(2600, 15000), ctx.scale(3000, 20000))
     ctx.count("documents", len(docs))
     parsed = parse_docs(ctx, docs)
     # the tape well-formedness checker of the model on every real tape
@@ -389,6 +391,14 @@ def run(ctx):
     base = len(impl) - len(cases)
     for k, c in enumerate(cases):
         check_node(ctx, c, impl[base + k], meta[k][0], meta[k][1])
+    # the same observations with debug assertions and overflow checks on (debug_assert! in FieldsIter::next,
+    # usize subtraction in tokens_len): a sample
+    sample = [c for c in cases if ctx.rng.random() < 0.25]
+    dimpl, _ = ctx.correspond("node_debug", sample, profile="debug", nontrivial=lambda c, i: "/" in i)
+    db = len(dimpl) - len(sample)
+    for k, c in enumerate(sample):
+        if dimpl[db + k] in ("PANIC", "ABORT", "HANG"):
+            ctx.fail("dom-crash", "DOM API crashes in a debug build", [c], [dimpl[db + k]], "no panic")
 
 
 def search(ctx):
